@@ -157,11 +157,70 @@ CONSTS: list = []
 CONST_IDS: dict = {}
 
 
+CONST_PRISTINE: list = []  # content of every configuration object right after the world was built
+CONST_CUR: list = []       # content as of the last consts_delta() / consts_restore()
+CONST_FLAT: list = []      # True: only scalars / enums / other configuration objects inside -> shallow comparison is exact
+
+_FLAT_OK = (int, float, str, bytes, bool, type(None), enum.Enum)
+
+
+def _content(o):
+    return dict(o.__dict__)
+
+
+def _is_flat(o) -> bool:
+    for v in o.__dict__.values():
+        if isinstance(v, _FLAT_OK) or id(v) in CONST_IDS:
+            continue
+        if type(v).__module__.startswith("spacepackets.util"):  # UnsignedByteField & co: value objects
+            continue
+        return False
+    return True
+
+
+def _sig(i, o):
+    return _content(o) if CONST_FLAT[i] else dumps(_content(o))
+
+
 def set_consts(objs) -> None:
     CONSTS[:] = list(objs)
     CONST_IDS.clear()
     for i, o in enumerate(CONSTS):
         CONST_IDS.setdefault(id(o), i)
+    CONST_FLAT[:] = [_is_flat(o) for o in CONSTS]
+    CONST_PRISTINE[:] = [_sig(i, o) for i, o in enumerate(CONSTS)]
+    CONST_CUR[:] = list(CONST_PRISTINE)
+
+
+def consts_delta() -> dict:
+    """Configuration objects whose content differs from the pristine one (normally none): index -> pickled
+    content. The code under test is not supposed to write into its configuration, but if it does, that is
+    state: it is saved in snapshots, restored, and part of the canonical key."""
+    delta = {}
+    for i, o in enumerate(CONSTS):
+        cur = _sig(i, o)
+        CONST_CUR[i] = cur
+        if cur != CONST_PRISTINE[i]:
+            delta[i] = cur if isinstance(cur, bytes) else dumps(cur)
+    return delta
+
+
+def consts_restore(delta: dict) -> None:
+    for i, o in enumerate(CONSTS):
+        want = delta.get(i)
+        if want is None:
+            if CONST_CUR[i] == CONST_PRISTINE[i]:
+                continue
+            pr = CONST_PRISTINE[i]
+            content = dict(pr) if isinstance(pr, dict) else loads(pr)
+            o.__dict__.clear()
+            o.__dict__.update(content)
+            CONST_CUR[i] = pr
+        else:
+            content = loads(want)
+            o.__dict__.clear()
+            o.__dict__.update(content)
+            CONST_CUR[i] = content if CONST_FLAT[i] else want
 
 
 def _const_lookup(i):
